@@ -1,5 +1,6 @@
 import Scc.Core2AxCut.Model
 import Scc.Core2AxCut.FsTyping
+import Scc.Core2AxCut.FreeVarsSpec
 import Scc.AxCut.SemNamed
 import Scc.AxCut.TypingNamed
 open Scc
@@ -21,4 +22,10 @@ def main (args : List String) : IO Unit := do
   | ["wtfs", file] => do
     let text ← IO.FS.readFile file
     IO.println (Core2AxCut.checkFsLine text.trimAscii.toString)
+  | ["wtfs2", file] => do
+    let text ← IO.FS.readFile file
+    let text := text.trimAscii.toString
+    match (Sexp.parse text).bind (Core.readFsProg (text.length + 10)) with
+    | none => IO.println "ERR"
+    | some p => IO.println s!"scoped={Core2AxCut.wtFsScopedCheck p} uniqueIds={Core2AxCut.uniqueIdsCheck p}"
   | _ => IO.println "usage"
